@@ -180,6 +180,7 @@ func drain(f *os.File) []byte {
 
 func classify(r interface{}) string {
 	var msg string
+	defer func() { panicMessage = msg }()
 	switch v := r.(type) {
 	case runtime.Error:
 		msg = v.Error()
@@ -207,6 +208,9 @@ func classify(r interface{}) string {
 
 // panicPrefix is prepended to the result when the case panics (context the case already established).
 var panicPrefix string
+
+// panicMessage keeps the text of a recovered panic: it is what an uncaught panic would print on standard error.
+var panicMessage string
 
 // run executes f, converting a panic into a result string.
 func run(f func() string) (res string) {
@@ -250,12 +254,17 @@ func main() {
 				res = "HARNESS-FAILURE unknown family " + fam
 			} else {
 				tape = nil
+				panicMessage = ""
 				rand.Reader = osReader
 				res = run(func() string { return f(t) })
 			}
 			so := drain(capOut)
 			se := drain(capErr)
-			fmt.Fprintf(out, "%s %s stdout=%s stderr=%s\n", id, res, hx(so), hx(se))
+			if panicMessage != "" {
+				fmt.Fprintf(out, "%s %s stdout=%s stderr=%s pmsg=%s\n", id, res, hx(so), hx(se), hxs(panicMessage))
+			} else {
+				fmt.Fprintf(out, "%s %s stdout=%s stderr=%s\n", id, res, hx(so), hx(se))
+			}
 		}
 		if err != nil {
 			break
